@@ -109,6 +109,9 @@ func (b *kvBackend) ver(s string) string {
 			return b.seen[n-1]
 		}
 	}
+	if s == "u9" {
+		return "" // the EMPTY version string: never issued either
+	}
 	return "never-issued-" + s
 }
 
@@ -454,6 +457,9 @@ func kvGen(ctx *Ctx, n int, redisOK bool, keys []string) []string {
 			}
 			return fmt.Sprintf("v%d", r.Range(1, nver))
 		}
+		if r.Chance(1, 4) {
+			return "u9" // empty version
+		}
 		return fmt.Sprintf("u%d", r.Intn(3))
 	}
 	var ops []string
@@ -596,7 +602,7 @@ func runKv(ctx *Ctx, kind string) {
 		// 1 ms ahead must still be gone once the expiry has passed.
 		kvSubMs(ctx)
 	}
-	if kind == "redis" && ctx.Focus != "C06" {
+	if kind == "redis" && ctx.Focus != "C06" && ctx.Focus != "C02" {
 		// keys with a leading '/' (known finding KF-2: aliased by rKey)
 		for _, ops := range [][]string{
 			{"0 put /s x -", "0 get s", "0 get /s", "0 list *"},
